@@ -56,13 +56,18 @@ def seq_once(hist, y):
     # lengths of history members come from their own baselines
     hb = I.baselines([full[x] for x, _m in hist]) if hist else []
     clear_all_memos()
+
+    def req(b):
+        # a baseline that ends in an exception: that exception was raised by
+        # the request for one more action
+        return len(b["stream"]) + (1 if b["error"] else 0)
     for (x, mode), b in zip(hist, hb):
-        partial_run(full[x], len(b["stream"]), mode)
-    return observed(full[y], len(base["stream"]), base,
+        partial_run(full[x], req(b), mode)
+    return observed(full[y], req(base), base,
                     [f"{full[x]!r}:{m}" for x, m in hist])
 
 
-def fresh_seq_many(cases):
+def fresh_seq_many(cases, extra_env=None):
     """cases: list of (hist, y).  Each is executed in its own fresh
     interpreter (16 at a time); returns the list of messages (None = the
     observed stream equals its baseline)."""
@@ -76,6 +81,7 @@ def fresh_seq_many(cases):
             "print('SEQ ' + json.dumps(P.seq_once([tuple(h) for h in c[0]], "
             "c[1])))" % common.VERIF_DIR)
     env = dict(os.environ, PYTHONHASHSEED="0", VERIF_REPO=common.REPO)
+    env.update(extra_env or {})
     out = []
     for i in range(0, len(cases), 16):
         procs = [subprocess.Popen([sys.executable, "-c", code,
@@ -518,6 +524,38 @@ def check(prop, tier):
     res.bounds["fault_groups"] = len(groups)
     res.bounds["fault_victims"] = len(ftasks)
 
+    # ------------------------------------------------------------ (f)
+    # the same sequential histories in a process that promotes the
+    # library's warnings to errors (-W error): what raises for an object
+    # alone must raise for it after any predecessor, and vice versa.  Every
+    # case runs in its own fresh interpreter; the baseline is taken under the
+    # same filter.
+    wl = [i for i, c in enumerate(full) if c.cls == "Mixed"][:4]
+    for fam_rep in ("Multistage", "TwoLevel", "HRevolve", "Revolve",
+                    "PeriodicDiskRevolve", "SingleDiskCopy"):
+        wl.append(next(i for i, c in enumerate(full) if c.cls == fam_rep))
+    wcases = [([(x, mode)], y) for x in wl for mode in ("construct", "end")
+              for y in wl]
+    nw = 0
+    for (hist, y), m in zip(wcases, fresh_seq_many(
+            wcases, {"VERIF_WARNINGS": "error"})):
+        nw += 1
+        if m is None:
+            continue
+        if isinstance(m, str) and m.startswith("HARNESS"):
+            res.harness_error(f"warnings-as-errors history {hist} -> {y}: {m}")
+            continue
+        rp = common.write_replay(prop, "warnings_as_errors", {
+            "property": prop, "kind": "c15_sequential_w",
+            "history": [list(h) for h in hist], "observed": y})
+        res.violation({"code": "history_dependent_under_W_error",
+                       "cls": full[y].cls},
+                      f"with the library's warnings promoted to errors: "
+                      f"{full[y]!r} {m}", rp)
+    res.add(evaluations=nw, states=nw, transitions=nw,
+            traces_validated_against_impl=nw)
+    res.counters["histories_under_warnings_as_errors"] = nw
+
     res.cov["distinct_nontrivial"] = share + nseq
     res.cov["rule"] = ("(a) all histories of length 1 (full alphabet x 3 modes) "
                        "and length 2 (sub-alphabet) before each observed "
@@ -561,6 +599,12 @@ def replay(prop, payload):
     elif k == "c15_seq":
         m = fresh_seq_many([([tuple(h) for h in payload["history"]],
                              payload["observed"])])[0]
+        print(m)
+        bad = m is not None
+    elif k == "c15_sequential_w":
+        m = fresh_seq_many([([tuple(h) for h in payload["history"]],
+                             payload["observed"])],
+                           {"VERIF_WARNINGS": "error"})[0]
         print(m)
         bad = m is not None
     elif k == "c15_fault":
